@@ -409,6 +409,14 @@ def dict_update(I, ctx, ref, other, node, kwargs=None):
             for pair in I.iter_concrete(ctx, other, node):
                 k, x = unpack(I, ctx, pair, 2, node)
                 dict_set(I, ctx, ref, k, x, node)
+        elif isinstance(other, VObj):
+            # update from an opaque mapping (stated assumption: it is a mapping): content unknown afterwards
+            if h.conc is not None:
+                dict_to_sym(I, ctx, ref) if h.conc and all(isinstance(k, str) for k in h.conc) else None
+                if h.conc is not None:
+                    h.conc, h.kt, h.vt = None, TStr, TObj()
+            h.dom = Z.fresh('upd_dom', Z.SetSort(h.kt.zsort))
+            h.arr = Z.fresh('upd_arr', z3.ArraySort(h.kt.zsort, h.vt.zsort))
         else:
             raise Unsupported('dict.update(%r)' % (other,), node)
     for k, x in (kwargs or {}).items():
